@@ -392,59 +392,18 @@ theorem decode_spec (P : X86Params) (hP : IsLvl P) (v : Nat) (hv : v < P.R) :
     rw [this.2, Nat.zero_mul, Nat.zero_mod]
 
 
-/-! ### mul_small
+/-! ### mul_small (after the repair 2ef264b: the fold chain starts with a clear carry)
 
-Full statement (FALSE for the code as written, all three levels):
-  `a < 2^B → x < 2^32 → mul_small P a x % q = (a * x) % q`.
-The carry variable `cc` is not cleared between the product chain and the folding chain, so the carry out
-of the top-limb addition of the product is added a second time.  Proved: the result is in range and
-represents `a·x + cc` with `cc ∈ {0,1}` that stale carry; and the negation of the full statement by
-concrete witnesses (replayed on the C code: `gf_mul_small` returns the same limbs). -/
+HISTORY: before the repair the stale carry of the product chain entered the fold chain and the result was
+`a·x + 1` on e.g. `a = (2^32+1)·2^(64(n−1)) + (2^64−1)·2^(64(n−2))`, `x = 2^32−1` (kept in corpus/C07). -/
 
-/-- the stale carry: carry out of `d_{n-1} + lo(a_{n-1}·x)` in the product chain -/
-def mulSmallCarry (P : X86Params) (a x : Nat) : Nat := a * x / P.R - limb a (P.n - 1) * x / 2 ^ 64
-
-theorem mul_small_partial (P : X86Params) (hP : IsLvl P) (a x : Nat) (ha : a < 2 ^ P.B) (hx : x < 2 ^ 32) :
-    mulSmallCarry P a x ≤ 1 ∧ mul_small P a x < 2 ^ P.B ∧
-      mul_small P a x % P.q = (a * x + mulSmallCarry P a x) % P.q := by
-  unfold mul_small mulSmallCarry
+theorem mul_small_spec (P : X86Params) (hP : IsLvl P) (a x : Nat) (ha : a < 2 ^ P.B) (hx : x < 2 ^ 32) :
+    mul_small P a x < 2 ^ P.B ∧ mul_small P a x % P.q = (a * x) % P.q := by
+  unfold mul_small
   simp only [Nat.mod_eq_of_lt hx]
-  -- split a into top limb and the rest
-  have hl : limb a (P.n - 1) = a / P.topW := by
-    unfold limb X86Params.topW
-    apply Nat.mod_eq_of_lt
-    rcases hP with rfl | rfl | rfl <;> lvl_unfold <;> omega
-  rw [hl]
-  have ha1 := Nat.div_add_mod a P.topW
-  have hlo : a % P.topW < P.topW := Nat.mod_lt _ (by rcases hP with rfl | rfl | rfl <;> decide)
-  have ht : a / P.topW < 2 ^ (P.B - 64 * (P.n - 1)) := by
-    rcases hP with rfl | rfl | rfl <;> lvl_unfold <;> omega
-  generalize a / P.topW = t at *
-  generalize a % P.topW = lo at *
-  have hD : a * x = t * x * P.topW + lo * x := by
-    rw [← ha1, Nat.add_mul, Nat.mul_comm P.topW t, Nat.mul_assoc, Nat.mul_comm P.topW x, ← Nat.mul_assoc]
-  have hw : lo * x < 2 ^ (64 * (P.n - 1) + 32) := by
-    rw [Nat.pow_add]; exact Nat.mul_lt_mul'' hlo hx
-  have hu : t * x < 2 ^ (P.B - 64 * (P.n - 1) + 32) := by
-    rw [Nat.pow_add]; exact Nat.mul_lt_mul'' ht hx
   have hDlt : a * x < 2 ^ (P.B + 32) := by
     rw [Nat.pow_add]; exact Nat.mul_lt_mul'' ha hx
-  rw [hD] at hDlt
-  rw [hD]
-  generalize t * x = u at *
-  generalize lo * x = w at *
-  clear hD ha1 ha hlo ht
-  -- the carry is 0 or 1
-  have hcc1 : (u * P.topW + w) / P.R - u / 2 ^ 64 ≤ 1 := by
-    rcases hP with rfl | rfl | rfl <;> lvl_unfold <;> omega
-  have hcc2 : u / 2 ^ 64 ≤ (u * P.topW + w) / P.R := by
-    rcases hP with rfl | rfl | rfl <;> lvl_unfold <;> omega
-  have hcc := And.intro hcc1 hcc2
-  clear hcc1 hcc2
-  generalize hccd : (u * P.topW + w) / P.R - u / 2 ^ 64 = cc at *
-  refine ⟨hcc.1, ?_⟩
-  generalize u * P.topW + w = D at *
-  clear hccd hu hw
+  generalize a * x = D at *
   have hh : D / 2 ^ P.e < 2 ^ 64 := by
     rcases hP with rfl | rfl | rfl <;> lvl_unfold <;> omega
   rw [Nat.mod_eq_of_lt hh, bigQuo_eq P hP _ hh, sub64_rem _ _ hh]
@@ -463,57 +422,37 @@ theorem mul_small_partial (P : X86Params) (hP : IsLvl P) (a x : Nat) (ha : a < 2
     apply Nat.mod_eq_of_lt
     rcases hP with rfl | rfl | rfl <;> lvl_unfold <;> omega
   rw [h5]
-  have h6 : (l + k + cc + r * 2 ^ P.s * P.topW) % P.R = l + k + cc + r * 2 ^ P.s * P.topW := by
+  have h6 : (l + k + r * 2 ^ P.s * P.topW) % P.R = l + k + r * 2 ^ P.s * P.topW := by
     apply Nat.mod_eq_of_lt
     rcases hP with rfl | rfl | rfl <;> lvl_unfold <;> omega
-  have h7 : 2 ^ P.e * (P.c * k + r) + l + cc = l + k + cc + r * 2 ^ P.s * P.topW + k * P.q := by
+  have h7 : 2 ^ P.e * (P.c * k + r) + l = l + k + r * 2 ^ P.s * P.topW + k * P.q := by
     rcases hP with rfl | rfl | rfl <;> lvl_unfold <;> omega
   rw [h6, h7, Nat.add_mul_mod_self_right]
   refine ⟨?_, rfl⟩
   rcases hP with rfl | rfl | rfl <;> lvl_unfold <;> omega
 
-/-- witness of the defect, lvl1 (in-range `a`, `x = 2^32 − 1`): the result is `a·x + 1` -/
-theorem mul_small_defect_x1 :
-    let a := (2 ^ 32 + 1) * 2 ^ 192 + (2 ^ 64 - 1) * 2 ^ 128
-    a < 2 ^ x1.B ∧ mul_small x1 a 0xFFFFFFFF % x1.q ≠ (a * 0xFFFFFFFF) % x1.q := by decide
-theorem mul_small_defect_x3 :
-    let a := (2 ^ 32 + 1) * 2 ^ 320 + (2 ^ 64 - 1) * 2 ^ 256
-    a < 2 ^ x3.B ∧ mul_small x3 a 0xFFFFFFFF % x3.q ≠ (a * 0xFFFFFFFF) % x3.q := by decide
-theorem mul_small_defect_x5 :
-    let a := (2 ^ 32 + 1) * 2 ^ 448 + (2 ^ 64 - 1) * 2 ^ 384
-    a < 2 ^ x5.B ∧ mul_small x5 a 0xFFFFFFFF % x5.q ≠ (a * 0xFFFFFFFF) % x5.q := by decide
 
+/-! ### square (after the repair 82bdea1 every carry chain of the cross products runs to the top limb: the integer
+square is exact at the three levels and `square a = mul a a` at value level)
 
-/-! ### square
+HISTORY: before the repair `gf65376_square` / `gf27500_square` dropped a carry (witnesses `2^383 − 2`, `2^505 − 304`,
+raw `p − 3`, …; kept in corpus/C07 and corpus/C06, chains recorded as `x3SqProgPreFix`, `x5SqProgPreFix`). -/
 
-Full statement (FALSE for the code as written at lvl3 and lvl5):
-  `a < 2^B → square P a < 2^B ∧ (square P a * R) % q = (a * a) % q`.
-`gf65376_square` / `gf27500_square` accumulate the off-diagonal products in carry chains that stop
-*below* the top limb of the partial sum (e.g. lvl3: `(void)inner_gf65376_adc(cc, e9, 0, &e9)`), so a
-carry out of that limb is lost.  lvl1 is exact (`square_spec_x1`).  Negation proved by kernel
-evaluation on in-range witnesses (replayed on the C code: `fp_sqr` returns the same limbs and
-differs from `fp_mul(a, a)`). -/
+theorem square_spec (P : X86Params) (hP : IsLvl P) (a : Nat) (ha : a < 2 ^ P.B) :
+    square P a < 2 ^ P.B ∧ (square P a * P.R) % P.q = (a * a) % P.q := by
+  rcases hP with rfl | rfl | rfl
+  · exact mul_spec x1 (Or.inl rfl) a a ha ha
+  · exact mul_spec x3 (Or.inr (Or.inl rfl)) a a ha ha
+  · exact mul_spec x5 (Or.inr (Or.inr rfl)) a a ha ha
 
-theorem square_defect_x3 :
-    let a := 2 ^ 383 - 2
-    a < 2 ^ x3.B ∧ square x3 a ≠ mul x3 a a ∧ (square x3 a * x3.R) % x3.q ≠ (a * a) % x3.q := by
-  decide +kernel
-
-theorem square_defect_x5 :
-    let a := 2 ^ 505 - 304
-    a < 2 ^ x5.B ∧ square x5 a ≠ mul x5 a a ∧ (square x5 a * x5.R) % x5.q ≠ (a * a) % x5.q := by
-  decide +kernel
-
-/-- what the theorems downstream of `square` (xsquare, sqrt) need; holds at lvl1, fails at lvl3/lvl5 -/
+/-- what the theorems downstream of `square` (xsquare, sqrt) use -/
 def SquareOK (P : X86Params) : Prop :=
   ∀ a, a < 2 ^ P.B → square P a < 2 ^ P.B ∧ (square P a * P.R) % P.q = (a * a) % P.q
 
-theorem squareOK_x1 : SquareOK x1 := square_spec_x1
-theorem not_squareOK_x3 : ¬ SquareOK x3 := fun h => square_defect_x3.2.2 (h _ square_defect_x3.1).2
-theorem not_squareOK_x5 : ¬ SquareOK x5 := fun h => square_defect_x5.2.2 (h _ square_defect_x5.1).2
+theorem squareOK (P : X86Params) (hP : IsLvl P) : SquareOK P := square_spec P hP
 
 
-/-! ### xsquare, sqrt (structural facts; relative to `SquareOK`, which holds at lvl1 only) -/
+/-! ### xsquare, sqrt (structural facts) -/
 
 theorem xsquare_lt (P : X86Params) (hsq : SquareOK P) (k : Nat) :
     ∀ a, a < 2 ^ P.B → xsquare P a k < 2 ^ P.B := by
@@ -579,11 +518,12 @@ theorem sqrt_spec (P : X86Params) (hP : IsLvl P) (hsq : SquareOK P) (a : Nat) (h
   have he := equals_spec P hP (square P r) a (hsq r hrlt).1 ha
   exact ⟨hrlt, hrev, he.1, he.2⟩
 
-theorem sqrt_spec_x1 (a : Nat) (ha : a < 2 ^ x1.B) :
-    (sqrt x1 a).1 < 2 ^ x1.B ∧ encode x1 (sqrt x1 a).1 % 2 = 0 ∧
-    ((sqrt x1 a).2 = T32 ↔ square x1 (sqrt x1 a).1 % x1.q = a % x1.q) ∧
-    ((sqrt x1 a).2 = T32 ∨ (sqrt x1 a).2 = 0) :=
-  sqrt_spec x1 (Or.inl rfl) squareOK_x1 a ha
+/-- `sqrt` at every level (no side hypothesis since `squareOK`) -/
+theorem sqrt_spec_all (P : X86Params) (hP : IsLvl P) (a : Nat) (ha : a < 2 ^ P.B) :
+    (sqrt P a).1 < 2 ^ P.B ∧ encode P (sqrt P a).1 % 2 = 0 ∧
+    ((sqrt P a).2 = T32 ↔ square P (sqrt P a).1 % P.q = a % P.q) ∧
+    ((sqrt P a).2 = T32 ∨ (sqrt P a).2 = 0) :=
+  sqrt_spec P hP (squareOK P hP) a ha
 
 
 /-! ### non-vacuity: concrete operands meeting the hypotheses, results recomputed by the kernel -/
